@@ -680,7 +680,7 @@ theorem sequence_roundtrip (cipher : Bytes → Bytes → Bytes) (cC cS : Ctx) (h
 /-- **A request that does not verify changes nothing** (D14.15 / D14.16 / D14.19, §8.2 "stop processing the request"):
 whatever is bound — to its token or to any other — stays bound as it was, so the response to an outstanding genuine request
 is still protected with THAT request's nonce, AAD and context.  In S at a server with one context and with several, and in
-M (`coap_oscore_decrypt_pdu` after fix 9631fdc: the association is created / refreshed after the AEAD has accepted; the
+M (`coap_oscore_decrypt_pdu` after fix b3c6528: the association is created / refreshed after the AEAD has accepted; the
 old order replaced nonce, AAD, Partial IV and recipient context of the token's association by the forged request's). -/
 theorem rejected_request_keeps_bindings (cipher : Bytes → Bytes → Bytes) (c : Ctx) (cs : List Ctx) :
     (∀ (st : Store) (pm : Msg), (∀ m b, (serverRecv cipher c st pm).1 ≠ .ok m b) → (serverRecv cipher c st pm).2 = st) ∧
@@ -1049,7 +1049,7 @@ theorem interleaved_contexts_roundtrip (cipher : Bytes → Bytes → Bytes) (cs 
 response from — `association->recipient_ctx` — is the one of the LATEST VERIFIED `decrypt` step with the response's token;
 and after a verified `decrypt` step for `t` the association holds that step's context, nonce, AAD and Partial IV whatever
 happens later to other tokens (in particular: whatever `session->recipient_ctx` has become) AND whatever requests that do
-not verify arrive with the SAME token (fix 9631fdc: before, such a request replaced all four).  A transcription that reads
+not verify arrive with the SAME token (fix b3c6528: before, such a request replaced all four).  A transcription that reads
 `session->recipient_ctx` instead, or one that refreshes the association before the AEAD has run, does not satisfy it
 (`example`s below). -/
 theorem response_ctx_is_request_ctx_impl (steps : List M.Oscore.SrvStep) :
@@ -1089,7 +1089,7 @@ theorem response_ctx_is_request_ctx_impl (steps : List M.Oscore.SrvStep) :
     rw [hrun, ha]
     simp [hr.1]
 
-/-- **libcoap (M) gives every response to an Observe request its own Partial IV** (fix ae365ed), and agrees with D14.5 on
+/-- **libcoap (M) gives every response to an Observe request its own Partial IV** (fix 155f0b4), and agrees with D14.5 on
 the others.  After a verified `decrypt` step for token `t` whose plaintext carried Observe — and whatever steps follow that
 leave the association alone (other tokens, forged requests with `t`) — `coap_oscore_new_pdu_encrypted_lkd` takes the
 Partial IV / `oscore_increment_sender_seq` branch for a response with token `t` whether or not the response carries Observe
@@ -1314,7 +1314,7 @@ example :
     ((protectResponseFor (fun _ b => b) ⟨[1], [], none, 10, [3, 4], [1, 2], [5]⟩ ⟨[], [0x14], [0]⟩ false ⟨2, 132, 7, [9], [], []⟩
       false 42 none).map fun r => oscoreValue r.opts) = some (some []) := by decide
 
-/-- M, fix 9631fdc: genuine request (token 01, context (0,0), nonce 07), then a forged request with the SAME token for
+/-- M, fix b3c6528: genuine request (token 01, context (0,0), nonce 07), then a forged request with the SAME token for
 context (1,0) that fails the AEAD: `session->recipient_ctx` moves, the association keeps context, nonce, AAD and Partial IV
 of the genuine request (the order before the fix — refresh, then verify — gives nonce 09 / context (1,0) here); a forged
 request with a new token leaves no association behind -/
@@ -1325,7 +1325,7 @@ example :
     SrvStepLeaves [1] (.decrypt [1] (1, 0) [6] [9] [0x99] false false) ∧ SrvStepLeaves [1] (.decrypt [2] (1, 0) [6] [9] [0x99] false true) := by
   refine ⟨by decide, by decide, Or.inr rfl, Or.inl (by decide)⟩
 
-/-- M, fix ae365ed: the association of an Observe request forces the Partial IV for a response without Observe that did not
+/-- M, fix 155f0b4: the association of an Observe request forces the Partial IV for a response without Observe that did not
 ask for one, and stays; the association of a plain request does not, and goes with the response -/
 example :
     let s := M.Oscore.srvRun ⟨none, []⟩ [.decrypt [1] (0, 0) [5] [7] [0x14] true true, .decrypt [2] (0, 0) [5] [8] [0x15] true false]
